@@ -31,8 +31,8 @@ EXPLANATION = (
     "exactly when no local resolution succeeded; R8.7 the route table holds what was added (RouteTable.add_route appends, on "
     "every path, an entry built from all four arguments - or finds the identical entry present -, rewrites no existing entry, "
     "and is the only writer of `routes`) and Router.process_frame hands a frame to a neighbour directly only on the "
-    "R8.8 the numeric settings this property depends on are never tested by truthiness (`x or default`, `if x:`), because 0 is a legal value for them. "
-    "`destination in <that interface>.ip_network` edge (a warm ARP entry does not replace the route table). NOT decided (not applicable to static analysis): end-to-end reachability / delivery success of permitted "
+    "`destination in <that interface>.ip_network` edge (a warm ARP entry does not replace the route table). R8.8 the numeric settings this property depends on are never tested by truthiness (`x or default`, `if x:`) - 0 is a legal value for them. "
+    "NOT decided (not applicable to static analysis): end-to-end reachability / delivery success of permitted "
     "exchanges over topologies, ARP behaviour under cold and warm caches, interleavings with interface toggles."
 )
 TECHNIQUE = "static: CFG must-pass for TTL, truth tables of addressee tests, well-founded-recursion check, order table of the route-selection guard"
